@@ -131,4 +131,10 @@ class MoreInfoFromHeaderMixin:
         if referrer is None:
             return None
 
-        return URL(url=referrer)
+        try:
+            url = URL(url=referrer)
+            url.port  # urlsplit() checks the port only when it is asked for
+        except ValueError:
+            return None
+
+        return url
